@@ -400,7 +400,7 @@ namespace nmtools::array
             // TODO: handle different size, layout, broadcasting
 
             auto binary_case = BinaryCase::INVALID;
-            if (utils::isequal(lhs_shape,rhs_shape)) {
+            if ((len(lhs_shape) == len(rhs_shape)) && utils::isequal(lhs_shape,rhs_shape)) {
                 binary_case = BinaryCase::SAME_SHAPE;
             } else if ((len(lhs_shape) == len(rhs_shape)) && (len(rhs_shape) == 2)) {
                 binary_case = BinaryCase::BROADCASTED_2D;
